@@ -12,7 +12,7 @@ from vlib import fbits, bitsf
 LEVEL_TEXT = ('Lean 4 theorems about the executable model of fourier.dft2/idft2 instantiated at ℂ/ℝ; the model is proved equal to the wiring regenerated from fourier.py on every run (centring, which offset/shift/sampling feeds which matrix factor, .T, product order, unitary factor, idft2 plumbing); for all shapes, real '
               'samplings α_r ≠ α_c, real shifts, integer offsets and both flags: the triple product equals the defining double sum '
               'with factor √|α_r α_c| exactly when unitary; linearity; zero-padded embedding = sub-array with offset; shift = input phase ramp; idft2 equals its own defining sum (any sampling, shape, shift, both flags); on a full or oversampled period (α = 1/K, K ≥ m, same flag) '
-              'idft2 ∘ dft2 = id; with integer offsets forward, an integer shift back and any real forward shift the full-period round trip is the circularly rolled input times the shift\'s phase ramp (idft2_dft2_full_period_rolled); under the unitary flag dft2 and idft2 conserve Σ|·|² (roots-of-unity orthogonality); out= of dft2 in a buffer model (guard regenerated, np.dot\'s acceptance condition by hand): which buffers are written, and that a written buffer holds the values of a fresh allocation, i.e. the defining sum (dft2_out_buffer_holds_defining_sum). The '
+              'idft2 ∘ dft2 = id; with integer offsets forward, an integer shift back and any real forward shift the full-period round trip is the circularly rolled input times the shift\'s phase ramp (idft2_dft2_full_period_rolled), on an oversampled period with a forward real shift the input times that ramp (idft2_dft2_oversampled_shifted); under the unitary flag dft2 and idft2 conserve Σ|·|² (roots-of-unity orthogonality); out= of dft2 in a buffer model (guard regenerated, np.dot\'s acceptance condition by hand): which buffers are written, and that a written buffer holds the values of a fresh allocation, i.e. the defining sum (dft2_out_buffer_holds_defining_sum). The '
               'same model definitions are run at complex doubles against the real functions on every check.')
 LEVEL_NOTE = ('Trusted: Lean kernel + Mathlib; that np.dot/np.outer/np.exp compute the sums/products/exponentials the hand model '
               'writes (checked differentially to 1e-9 relative, not proved); floating-point rounding is not modelled. The out= '
@@ -32,7 +32,7 @@ TRUSTED = ['np.dot(A, B, out=buf) accepts buf exactly when it is a writeable, al
            'functools.lru_cache on _dft2_coords returns the arrays it was given (history independence is only observed: bursts of '
            'repeated shapes in the generator)']
 UNPROVEN = ['out=: the theorems are about a buffer model; its np.dot(out=) acceptance condition is NumPy\'s contract written by hand (trusted, observed by c01.out on every generated buffer), only dft2\'s own dtype guard and "the result is the buffer" are regenerated. Not in the model: the in-place call out=f (buffer aliasing the input; relies on NumPy evaluating E1.dot(f) before writing — in-place correspondence cases only), alignment, non-2-D or empty results, and idft2(out=) (conj/divide written into the buffer: differential and oracle only)',
-            'the rolled round trip is proved on a full period only (α = 1/m, 1/n, output shape = input shape); with an oversampled period and offsets/shifts no theorem describes it and it is not generated; a non-integer inverse shift has no theorem']
+            'the rolled round trip is proved on a full period only (α = 1/m, 1/n, output shape = input shape); on an oversampled period a forward real shift is proved to give the phase-ramped copy (idft2_dft2_oversampled_shifted); with offsets or an inverse shift on an oversampled period no theorem describes it and it is not generated; a non-integer inverse shift has no theorem']
 ASSUMPTIONS = ['shapes are at least 1x1; α, shifts real; offsets integers; inversion/Parseval only claimed on a full period '
                '(α = 1/m, 1/n, output shape = input shape; zero shift/offset for idft2 ∘ dft2 = id, integer offsets and integer inverse shift for the rolled form) with the same flag on both sides; out= buffers are aligned and do not overlap the input (except the in-place cases, oracle only)']
 
